@@ -18,11 +18,20 @@ class Boom(Exception):
     pass
 
 
+class BoomBase(BaseException):
+    """an exit that is not an Exception (KeyboardInterrupt, SystemExit, GeneratorExit, asyncio.CancelledError are of this kind)"""
+
+
+def _boom(cfg):
+    return BoomBase if getattr(cfg, "exc", None) == "base" else Boom
+
+
 def _cm_cfgs():
     out = []
     for depth in (1, 2, 3):
         for fail_at in (None,) + tuple(range(1, depth + 1)):
             out.append({"depth": depth, "fail_at": fail_at})
+    out += [{"depth": 1, "fail_at": 1, "exc": "base"}, {"depth": 2, "fail_at": 2, "exc": "base"}, {"depth": 3, "fail_at": 2, "exc": "base"}]
     return out
 
 
@@ -44,6 +53,7 @@ class _enable:
         if I is not None:
             I.setattr(a.self, "free_arithmetics", a.init)
             obs["keys_before"] = set(obj_dict(a.self))
+            var_before = obj_dict(a.self).get("_free_arithmetics")
 
             def level(i):
                 cm = I.call(I.getattr(a.self, "enable_free_arithmetics"), [a.values[i]], {})
@@ -56,20 +66,22 @@ class _enable:
                         finally:
                             obs["after_each"][i + 1] = _get(I, a.self)
                     if cfg.fail_at == i + 1:
-                        raise Raised(Boom("body failed"))
+                        raise Raised(_boom(cfg)("body failed"))
                 I.run_contextmanager(cm, body)
             try:
                 level(0)
                 obs["raised"] = False
             except Raised as r:
-                if not isinstance(r.exc, Boom):
+                if not isinstance(r.exc, _boom(cfg)):
                     raise
                 obs["raised"] = True
             obs["after_each"][0] = _get(I, a.self)
             obs["keys_after"] = set(obj_dict(a.self))
+            obs["same_variable"] = obj_dict(a.self).get("_free_arithmetics") is var_before
             return obs
         a.self.free_arithmetics = a.init
         obs["keys_before"] = set(vars(a.self))
+        var_before = vars(a.self).get("_free_arithmetics")
 
         def level(i):
             with a.self.enable_free_arithmetics(a.values[i]):
@@ -80,14 +92,15 @@ class _enable:
                     finally:
                         obs["after_each"][i + 1] = a.self.free_arithmetics
                 if cfg.fail_at == i + 1:
-                    raise Boom("body failed")
+                    raise _boom(cfg)("body failed")
         try:
             level(0)
             obs["raised"] = False
-        except Boom:
+        except _boom(cfg):
             obs["raised"] = True
         obs["after_each"][0] = a.self.free_arithmetics
         obs["keys_after"] = set(vars(a.self))
+        obs["same_variable"] = vars(a.self).get("_free_arithmetics") is var_before
         a.self.free_arithmetics = False
         return obs
 
@@ -106,7 +119,8 @@ class _enable:
 
     @ensures("switch_lives_only_in_the_context_variable")
     def _(a, old, result):
-        return And(result["keys_before"] == {"_free_arithmetics"}, result["keys_after"] == {"_free_arithmetics"})
+        # ... and it is the SAME context variable afterwards (a re-created variable would carry a new process-wide default)
+        return And(result["keys_before"] == {"_free_arithmetics"}, result["keys_after"] == {"_free_arithmetics"}, result["same_variable"])
 
 
 @contract(CFG + ".free_arithmetics", props=["C19"], name=CFG + ".free_arithmetics[get/set]")
@@ -116,20 +130,30 @@ class _getset:
 
     def invoke(I, fn, a, cfg):
         if I is not None:
+            var_before = obj_dict(a.self).get("_free_arithmetics")
+            default_before = getattr(var_before, "default", None)
             I.setattr(a.self, "free_arithmetics", a.v1)
             r1 = _get(I, a.self)
             I.setattr(a.self, "free_arithmetics", a.v2)
-            return (r1, _get(I, a.self), set(obj_dict(a.self)))
+            var_after = obj_dict(a.self).get("_free_arithmetics")
+            return (r1, _get(I, a.self), set(obj_dict(a.self)), var_after is var_before, getattr(var_after, "default", None) is default_before)
+        var_before = vars(a.self).get("_free_arithmetics")
         a.self.free_arithmetics = a.v1
         r1 = a.self.free_arithmetics
         a.self.free_arithmetics = a.v2
         r2 = a.self.free_arithmetics
         a.self.free_arithmetics = False
-        return (r1, r2, set(vars(a.self)))
+        return (r1, r2, set(vars(a.self)), vars(a.self).get("_free_arithmetics") is var_before, True)
 
     @ensures("getter_returns_what_the_setter_stored")
     def _(a, old, result):
         return And(Iff(result[0], old.v1), Iff(result[1], old.v2), result[2] == {"_free_arithmetics"})
+
+    @ensures("the_setter_writes_into_the_existing_context_variable_it_does_not_replace_it")
+    def _(a, old, result):
+        # an assignment is local to the current context only if it goes through ContextVar.set of the SAME variable; a new
+        # variable (with the value as its default) would be seen by every other thread / task
+        return And(result[3], result[4])
 
 
 @contract(CFG + ".__init__", props=["C19"])
